@@ -62,7 +62,6 @@ def value_grid(repo, rep, tier):
     va, kwn = fn.args.vararg.arg, fn.args.kwarg.arg
     for q in ("reduce_deg", "reduce_dms", "dms2deg"):
         rep.fn(MOD, CLS + "." + q)
-    base = repo_prims(repo)
     try:
         fr = repo.func(MOD, CLS + ".reduce_deg")
         red_t = ret_term(repo, MOD, CLS + ".reduce_deg", arg_terms={fr.args.args[0].arg: T.sym("NUM_RED")})
@@ -70,10 +69,13 @@ def value_grid(repo, rep, tier):
         rep.inconcl("R-VALUE", site, "reduce_deg not extractable: %s" % e)
         return
 
-    def prims(t, env):
+    hold = {}
+
+    def red_prim(t, env):
         if t[0] == "call" and t[1] == "red" and len(t) == 3:
-            return eval_exact(red_t, {T.sym("NUM_RED"): eval_exact(t[2], env, prims), "$memo": {}}, prims)
-        return base(t, env)
+            return eval_exact(red_t, {T.sym("NUM_RED"): eval_exact(t[2], env, hold["p"]), "$memo": {}}, hold["p"])
+        return None
+    prims = hold["p"] = repo_prims(repo, red_prim)
     F = Fraction
     syms = [T.sym("NUM_V%d" % i) for i in range(3)]
     stored = {}
@@ -343,6 +345,9 @@ def reduced_by_construction(m, fn, value, at, depth):
         if binds and not others and all(reduced_by_construction(m, fn, b.value, b, depth + 1) for b in binds):
             return "local bound only to reduced values"
         return None
+    if isinstance(value, ast.BinOp) and isinstance(value.op, ast.Mod) and isinstance(value.right, ast.Constant) and value.right.value in (360, 360.0) \
+            and not isinstance(value.right.value, bool):
+        return "remainder modulo a full turn: in [0, 360) for any finite operand (exact arithmetic)"
     txt = norm_text(value).replace(" ", "")
     if txt in ("360.0-abs(self._deg)", "360-abs(self._deg)", "360.0+self._deg", "self._deg+360.0", "360+self._deg", "self._deg+360") \
             and guarded_negative(fn, at):
